@@ -208,7 +208,11 @@ fn collect_types(items: &[syn::Item], types: &mut Vec<String>, consts: &mut Vec<
             syn::Item::Impl(i) => {
                 let (gp, gw) = generics_json(&i.generics);
                 let tr = i.trait_.as_ref().map(|(_, p, _)| toks(p)).unwrap_or_default();
-                impls.push(format!("{{\"self_ty\":{},\"trait\":{},\"generics\":{},\"wheres\":{}}}", js(&toks(&i.self_ty)), js(&tr), gp, gw));
+                let name = match &*i.self_ty {
+                    syn::Type::Path(p) => p.path.segments.last().map(|s| s.ident.to_string()).unwrap_or_default(),
+                    _ => String::new(),
+                };
+                impls.push(format!("{{\"self_ty\":{},\"name\":{},\"trait\":{},\"generics\":{},\"wheres\":{}}}", js(&toks(&i.self_ty)), js(&name), js(&tr), gp, gw));
             }
             syn::Item::Mod(m) => {
                 if let Some((_, inner)) = &m.content {
